@@ -1292,6 +1292,12 @@ impl Prop for C17 {
             Ok(t) => t.clone(),
             Err(msg) => {
                 let m = normalise_panic(msg);
+                // an evaluation-index-keyed fault makes the environment impure (the same point answers differently
+                // on another call); a solver that notices and refuses loudly has not violated anything
+                if index_faults && !m.contains(BUDGET_MARK) {
+                    stats.count("outcome.refused_loudly_under_impure_environment");
+                    return Ok(());
+                }
                 if m.contains(BUDGET_MARK) {
                     return violation("unbounded-work", &format!("{en}:unbounded-work"), format!("{}: more than {} evaluations with max_iter={k}", e.name(), budget_for(case, k)));
                 }
